@@ -197,6 +197,14 @@ impl Iterator for TaikoGradualDifficulty {
     }
 
     fn nth(&mut self, n: usize) -> Option<Self::Item> {
+        // As per `Iterator::nth`, if fewer than `n + 1` items remain, all of
+        // them are consumed and `None` is returned.
+        if n >= self.len() {
+            while self.next().is_some() {}
+
+            return None;
+        }
+
         let mut take = cmp::min(n, self.len().saturating_sub(1));
 
         // The first two notes have no difficulty object but might add to combo
